@@ -13,6 +13,8 @@ package engines
 //	race pair    <impl> A B …                    sampled (quick) / all (thorough) pairs; observation SKIP.
 //	race life    tscreen A B …                   the lifecycle pairs (Suspend/Resume/Fini/Init against each other), always
 //	     generated whatever the facts say, with input and resize traffic; observation SKIP (oracle only).
+//	race pair    tscreen SetClipboard {Show,Sync,SetTitle,SetSize,GetClipboard}   always generated: the shared description's
+//	     evaluator (ti.eval) under a payload-carrying expansion against every other kind of expansion.
 //	race block   tscreen Sync B …               tokenizer check: every Write seen while Sync and B run concurrently is
 //	     the Sync block or one of B's own blocks (class show-block-interleaved).
 //
@@ -334,6 +336,14 @@ func rcGen(g *h.Gen) {
 			}
 			g.Emit("race pair tscreen %s Show cs=%s ms=%d seed=%d", e, cs, ms, g.R.Intn(1<<30))
 		}
+	}
+	// the evaluator of the shared terminal description (pseudo-field ti.eval of the facts: TParm / TGoto / TColor / TPuts on
+	// t.ti), whatever the facts say: SetClipboard expands a parameterised string with a payload of its own; it runs
+	// against every kind of method that expands parameterised strings — a redraw, a full repaint, a title, a window-size
+	// request, the clipboard query — on the XTermLike entry the race binary obtains through LookupTerminfo.  A race inside
+	// package terminfo is attributed through the tscreen.go call site of the evaluator (rcCanon / rcFieldsAt).
+	for _, p := range []string{"Show", "Sync", "SetTitle", "SetSize", "GetClipboard"} {
+		g.Emit("race pair tscreen SetClipboard %s cs=UTF-8 ms=%d seed=%d", p, ms, g.R.Intn(1<<30))
 	}
 	// the lifecycle pairs, whatever the facts say (a tree that serialises engage/disengage must be clean here and must
 	// not deadlock; the pinned tree shows race-disengage-tail / race-loops-overlap): input and resize traffic is on
